@@ -1698,6 +1698,11 @@ pub mod enc {
         pub unknown_comp: Comp,
         #[serde(default = "default_unknown_len")]
         pub unknown_len: usize,
+        /// what the unknown chunk's payload looks like: 0 text, 1 starts with the Zstandard magic,
+        /// 2 is a whole Zstandard frame, 3 starts like an LZ4 frame, 4 is the END chunk's text,
+        /// 5 starts with the file magic
+        #[serde(default)]
+        pub unknown_kind: u8,
         /// classes (by name) written in the service object format
         pub service_format: Vec<String>,
         /// extra PROP chunks: (class index, property name, Some(type id) / None = cut after the name)
@@ -1713,8 +1718,21 @@ pub mod enc {
     pub fn default_unknown_len() -> usize {
         16
     }
-    pub fn unknown_payload(n: usize) -> Vec<u8> {
-        b"an unknown chunk".iter().cycle().take(n).cloned().collect()
+    pub fn unknown_payload(n: usize, kind: u8) -> Vec<u8> {
+        let text: Vec<u8> = b"an unknown chunk".iter().cycle().take(n).cloned().collect();
+        let with_prefix = |p: &[u8]| -> Vec<u8> {
+            let mut v = p.to_vec();
+            v.extend_from_slice(&text);
+            v
+        };
+        match kind {
+            1 => with_prefix(&[0x28, 0xb5, 0x2f, 0xfd]),
+            2 => zstd::bulk::compress(&text, 3).expect("zstd"),
+            3 => with_prefix(&[0x04, 0x22, 0x4d, 0x18]),
+            4 => b"</roblox>".to_vec(),
+            5 => with_prefix(b"<roblox!\x89\xff\x0d\x0a\x1a\x0a"),
+            _ => text,
+        }
     }
 
     pub fn permutation(n: usize, mut k: usize) -> Vec<usize> {
@@ -1759,6 +1777,7 @@ pub mod enc {
             unknown_chunk_at: None,
             unknown_comp: Comp::None,
             unknown_len: 16,
+            unknown_kind: 0,
             service_format: vec![],
             junk_props: vec![],
             junk_last: false,
@@ -1907,12 +1926,12 @@ pub mod enc {
         out.extend_from_slice(&[0u8; 8]);
         for (k, (name, data)) in chunks.iter().enumerate() {
             if e.unknown_chunk_at == Some(k) {
-                out.extend(frame_chunk(b"ZZZZ", &unknown_payload(e.unknown_len), e.unknown_comp));
+                out.extend(frame_chunk(b"ZZZZ", &unknown_payload(e.unknown_len, e.unknown_kind), e.unknown_comp));
             }
             out.extend(frame_chunk(name, data, e.comp[k % e.comp.len()]));
         }
         if e.unknown_chunk_at == Some(chunks.len()) {
-            out.extend(frame_chunk(b"ZZZZ", &unknown_payload(e.unknown_len), e.unknown_comp));
+            out.extend(frame_chunk(b"ZZZZ", &unknown_payload(e.unknown_len, e.unknown_kind), e.unknown_comp));
         }
         out.extend(frame_chunk(b"END\0", b"</roblox>", Comp::None));
         Ok(out)
